@@ -80,9 +80,15 @@ def spellings():
     return out
 
 
+PAIRS = ["alias x y\nalias x z", "alias x y\nalias w v\nalias x z", "set default allow\nset default ask", "set default ask\nset default allow",
+         "set log /a\nset log /b", "set log /a\nset log ~nosuchuser/x", "set log-full\nset log_full x", "deny rm\nbogus\nallow rm",
+         "allow a\nallow-mcp b\nask-redirect c\nafter d \"m\"\nafter-mcp e \"\"", "allow a\n\n# c\nallow b", "allow a\r\nallow b",
+         "ask x \"a\nb\"", "deny x \"m\\\ny\""]
+
+
 def systematic():
     """(directive class, shape name, text) - every directive spelling x every argument shape."""
-    out = []
+    out = [("multi", "pairs", t) for t in PAIRS]
     for i, (cls, sp) in enumerate(spellings()):
         for j, (name, rest) in enumerate(SHAPES):
             out.append((cls, name, sp + " " + rest))
@@ -347,7 +353,7 @@ def value_stream(tier, rng):
                 for m in msgs:
                     out.append((d, p, ex, m))
     rng.shuffle(out)
-    n_sys, n_rnd = (4000, 4000) if tier == "quick" else (len(out), 60000)
+    n_sys, n_rnd = (4000, 4000) if tier == "quick" else (len(out), 150000)
     out = out[:n_sys]
     names = list(ct.RULE_DIRECTIVES)
     for _ in range(n_rnd):
@@ -496,7 +502,7 @@ def run(tier, seed, replay=None):
                     check_text(out, model, home, parse_config, loc, text, rng, xcheck, meta=(cls, name))
                 malformed = [t for t in pool if t.strip() and not t.strip().startswith("#") and loc.summary(t) != "raises" and loc.summary(t)["inert"]]
                 out.extra["malformed_pool"] = len(malformed)
-                n_rand = 2500 if tier == "quick" else 40000
+                n_rand = 2500 if tier == "quick" else 120000
                 for _ in range(n_rand):
                     text = "\n".join(rand_line(rng, pool) for _ in range(rng.randint(1, 10)))
                     check_text(out, model, home, parse_config, loc, text, rng, xcheck, metamorphic=True, malformed=malformed)
@@ -518,6 +524,19 @@ def run(tier, seed, replay=None):
                         good.append(val)
                 for _ in range(300 if tier == "quick" else 5000):
                     check_file(out, parse_config, home, [rng.choice(good) for _ in range(rng.randint(1, 8))])
+        if not replay:
+            # the excluded case of C11_total, shown on the real code: with an undeterminable home directory the
+            # loop is left by RuntimeError exactly where the model says (and nowhere else)
+            with ct.home_env("~") as nohome:
+                assert nohome is None
+                for cls, name, text in systematic()[::5]:
+                    iv, e = ct.impl_parse(parse_config, text)
+                    mv = ct.model_parse(model, None, text)
+                    got = iv if e is None else ["exn", type(e).__name__]
+                    out.count("no_home", "raises RuntimeError" if got == ["exn", "RuntimeError"] else ("ok" if e is None else f"raises {type(e).__name__}"))
+                    if got != mv:
+                        out.disagreements.append({"correspondence": "ConfigText.parse_config (home = None) <-> config.parse_config with HOME='~'",
+                                                  "text": text, "model": mv, "impl": got})
         with ct.home_env(HOME) as home:
             only = replay.get("layout") if replay and replay.get("replay_kind") == "hook" else None
             if only or not replay:
